@@ -74,8 +74,22 @@ def run(ctx):
             cex[name] = (site, variant, path)
             jobs.append(R.job(name, site_cfg[site]["topo"], variant, paths=[path], patience_ms=3000))
     for (topo, variant, c), r in zip(rel_specs, rels):
-        jobs.append(R.job("rel_%s_%s" % (topo, variant), topo, variant, edges=r.edges))
-    out = R.replay(ctx, jobs)
+        # fan-in / chain have one downstream connection: using up one of its ids makes the ids of the two hops of every
+        # tunnel differ without changing which ids coincide
+        jobs.append(R.job("rel_%s_%s" % (topo, variant), topo, variant, edges=r.edges,
+                          burn=[("T", "X")] if topo in ("fanin", "chain") else ()))
+    # ---- 4. operation-level scenarios --------------------------------------------------------------------------------
+    scs = []
+    for site, r in sids.items():
+        ops = R.tail_ops(2, R.ops_of([s["a"] for s in R.cex_path(r)["steps"]]))
+        for kind in ("tcp", "forward", "udp"):
+            scs.append(R.scenario("%s-%s" % (site, kind), site_cfg[site]["topo"], kind, ops, idle_ms=0, no_leak=True))
+    chain_ops = R.tail_ops(2, [{"op": "burn", "a": "T", "p": "X"}, {"op": "open", "t": 1}, {"op": "send", "t": 1}, {"op": "open", "t": 2}])
+    for kind in ("tcp", "forward", "udp"):
+        scs.append(R.scenario("chain-%s" % kind, "chain", kind, chain_ops, idle_ms=0, no_leak=True))
+    if not q:
+        scs += sim_scenarios(ctx)
+    out, recs, icmp = R.run_all(ctx, jobs, scs)
     reproduced = {}
     for name, (site, variant, path) in cex.items():
         o = out.pop(name)
@@ -91,20 +105,7 @@ def run(ctx):
                         {"site": site, "variant": variant, "actions": [s["a"] for s in path["steps"]]})
     nmis = R.report_replay(ctx, out)
 
-    # ---- 4. operation-level scenarios --------------------------------------------------------------------------------
-    scs = []
-    for site, r in sids.items():
-        ops = R.tail_ops(2, R.ops_of([s["a"] for s in R.cex_path(r)["steps"]]))
-        for kind in ("tcp", "forward", "udp"):
-            scs.append(R.scenario("%s-%s" % (site, kind), site_cfg[site]["topo"], kind, ops, idle_ms=0, no_leak=True))
-    chain_ops = R.tail_ops(2, [{"op": "open", "t": 1}, {"op": "send", "t": 1}, {"op": "open", "t": 2}])
-    for kind in ("tcp", "forward", "udp"):
-        scs.append(R.scenario("chain-%s" % kind, "chain", kind, chain_ops, idle_ms=0, no_leak=True))
-    if not q:
-        scs += sim_scenarios(ctx)
-    recs = R.run_scenarios(ctx, scs)
     nfail = R.report_scenarios(ctx, recs, R.C16_KINDS)
-    icmp = R.run_icmp(ctx)
     nfail += R.report_icmp(ctx, icmp, R.C16_KINDS)
 
     rel_paths = sum(o["paths"] for o in out.values())
